@@ -33,6 +33,19 @@ def gen_cases(ctx):
         for _ in range(n):
             k += 1
             cases.append(gen_case(ctx, name, k))
+    # ADWIN / ADWINAccuracy: an abrupt change well inside the warm-up (window_size_thresh much larger than the position of the
+    # change and than subwindow_size_thresh), with the loosest delta: no drift may be reported while W <= window_size_thresh
+    for name in ("ADWIN", "ADWINAccuracy"):
+        for wst, sub, pos in ((25, 1, 8), (60, 3, 12), (60, 5, 20), (25, 3, 10)):
+            k += 1
+            n = ctx.rng.randint(70, 110)
+            if name == "ADWIN":
+                data = [0.0 + 0.01 * (j % 3) if j < pos else 5.0 + 0.01 * (j % 3) for j in range(n)]
+            else:
+                data = [[1, 1] if j < pos else [1, 0] for j in range(n)]
+            cases.append({"det": name, "seed": (ctx.seed + 31 * k) % 100000, "data": data,
+                          "params": {"delta": 1.0, "max_buckets": 5, "new_sample_thresh": 1, "window_size_thresh": wst,
+                                     "subwindow_size_thresh": sub, "conservative_bound": False}})
     return cases
 
 
